@@ -114,6 +114,10 @@ pub fn family(r: &mut Rng, i: usize) -> (LinearModel, &'static str) {
 }
 
 pub fn cases_for(lm: &LinearModel, fam: &str, variants: &gen_lp::Variants, out: &mut Vec<Case>) {
+    cases_for_kinds(lm, fam, variants, &SolverKind::ENTRY_POINTS, out)
+}
+
+pub fn cases_for_kinds(lm: &LinearModel, fam: &str, variants: &gen_lp::Variants, kinds: &[SolverKind], out: &mut Vec<Case>) {
     let lms = sx::lin_model(lm);
     let opts = Opts::default();
     let cont = gen_lp::is_continuous(lm);
@@ -124,8 +128,8 @@ pub fn cases_for(lm: &LinearModel, fam: &str, variants: &gen_lp::Variants, out: 
         if matches!(o, Outcome::Hang) { hung.set(true); }
         o
     };
-    let raw_milp = call(SolverKind::RawMilp);
-    for kind in SolverKind::ENTRY_POINTS {
+    let raw_milp = if kinds.iter().any(|k| matches!(k, SolverKind::Milp | SolverKind::Auto)) { call(SolverKind::RawMilp) } else { Outcome::Hang };
+    for &kind in kinds {
         let o = call(kind);
         let res = gen_lp::result(&o);
         let mut c = Case::default();
@@ -246,7 +250,53 @@ pub fn seeded() -> Vec<(LinearModel, &'static str)> {
     m.add_constraint(vec![1.0, -3.0, 3.0, -2.0], Comparison::Equal, 6.0);
     m.set_objective(vec![0.0, 0.0, -3.0, 2.0], OptimizationType::Min);
     v.push((m, "seeded-clarabel-diverging"));
+    // tableau simplex: pivot candidates that are pure round-off residue (seeded change C05-12: `float_gt(a[h], 0.0)` of
+    // the ratio test's eligibility filter replaced by `a[h] > 0.0`) -- an unbounded model answered with ~-5e16, a
+    // wrong finite optimum (-15 for -49/3), a feasible model answered Infeasible; kept as regression models
+    let two = |a: f64, b: f64| if a == 0.0 && b > 0.0 { VariableType::NonNegativeReal(a, b) } else { VariableType::Real(a, b) };
+    let mut m = LinearModel::new();
+    m.add_variable("x", two(-2.0, 0.0)); m.add_variable("y", free());
+    m.add_constraint(vec![-3.0, 3.0], Comparison::GreaterOrEqual, 1.0);
+    m.add_constraint(vec![-3.0, 2.0], Comparison::GreaterOrEqual, 3.0);
+    m.set_objective(vec![1.0, -3.0], OptimizationType::Min);
+    v.push((m, "seeded-simplex-residue-pivot"));
+    let mut m = LinearModel::new();
+    m.add_variable("a", two(-2.0, 0.0)); m.add_variable("b", two(-2.0, 2.0)); m.add_variable("c", free()); m.add_variable("d", free());
+    m.add_constraint(vec![3.0, -2.0, 3.0, 1.0], Comparison::LessOrEqual, -3.0);
+    m.add_constraint(vec![2.0, 3.0, 0.0, -1.0], Comparison::Equal, 4.0);
+    m.set_objective(vec![-3.0, 2.0, -1.0, 1.0], OptimizationType::Min);
+    v.push((m, "seeded-simplex-residue-pivot"));
+    let mut m = LinearModel::new();
+    m.add_variable("a", free()); m.add_variable("b", two(0.0, 3.0)); m.add_variable("c", two(0.0, 4.0)); m.add_variable("d", two(0.0, 2.0));
+    m.add_constraint(vec![-2.0, 0.0, -1.0, -1.0], Comparison::LessOrEqual, 2.0);
+    m.add_constraint(vec![3.0, -1.0, -1.0, 0.0], Comparison::LessOrEqual, -3.0);
+    m.add_constraint(vec![-1.0, 1.0, 1.0, 1.0], Comparison::Equal, 4.0);
+    m.set_objective(vec![2.0, 0.0, -2.0, -2.0], OptimizationType::Max);
+    v.push((m, "seeded-simplex-residue-pivot"));
     v
+}
+
+/// round-off-prone models for the tableau simplex alone: free and two-sided bounded reals (split into $p/$m plus bound
+/// rows), dense rows with coefficients in -3..3 (divisions by 3 leave 1e-16 residues where the exact entry is 0)
+fn fam_residue(r: &mut Rng) -> LinearModel {
+    let nv = 2 + r.below(3);
+    let nr = 2 + r.below(3);
+    let mut m = LinearModel::new();
+    for i in 0..nv {
+        let d = match r.below(4) {
+            0 | 1 => free(),
+            2 => { let lo = -(r.below(3) as f64); VariableType::Real(lo, lo + (1 + r.below(4)) as f64) }
+            _ => VariableType::NonNegativeReal(0.0, (1 + r.below(4)) as f64),
+        };
+        m.add_variable(&format!("v{}", i), d);
+    }
+    for _ in 0..nr {
+        let cs: Vec<f64> = (0..nv).map(|_| if r.chance(1, 5) { 0.0 } else { *r.pick(&[-3.0, -2.0, -1.0, 1.0, 2.0, 3.0]) }).collect();
+        m.add_constraint(cs, gen_lp::cmp3(r, 25), r.range(-4, 4) as f64);
+    }
+    let obj = (0..nv).map(|_| small(r)).collect();
+    m.set_objective(obj, sense(r));
+    m
 }
 
 pub fn generate(seed: u64, n: usize, _thorough: bool, _corpus: Option<&str>) -> Vec<Case> {
@@ -269,6 +319,12 @@ pub fn generate(seed: u64, n: usize, _thorough: bool, _corpus: Option<&str>) -> 
     for k in 0..48 {
         let lm = gen_lp::two_phase_zero_rows(&mut r2, k);
         cases_for(&lm, "two-phase-zero-level-artificial", &variants, &mut cases);
+    }
+    // round-off residue in the entering column: simplex entry point only (cheap), own stream
+    let mut r4 = Rng::new(seed ^ 0x5e51d);
+    for _ in 0..(if _thorough { 6000 } else { 1200 }) {
+        let lm = fam_residue(&mut r4);
+        cases_for_kinds(&lm, "simplex-round-off-residue", &variants, &[SolverKind::Simplex], &mut cases);
     }
     child::shutdown();
     cases
